@@ -64,7 +64,7 @@ DATE = "2026-01-02 03:04:05.000006"
 
 
 def budget(tier):
-    return int(os.environ.get("VERIF_BUDGET", 0)) or {"quick": 9, "thorough": 120}[tier]
+    return int(os.environ.get("VERIF_BUDGET", 0)) or {"quick": 9, "thorough": 90}[tier]
 
 
 # ---------------------------------------------------------------- generation
@@ -207,6 +207,7 @@ def worker_init():
     shutil.rmtree(root, ignore_errors=True)
     root.mkdir(parents=True)
     G["root"] = root
+    _sweep_dead_scratch(root.parent.parent)
     df1 = pd.DataFrame({'ID': [1, 1, 2, 2], 'TIME': [0., 1., 0., 1.], 'AMT': [10., 0, 10., 0], 'DV': [0., 3., 0., 4.]})
     df2 = pd.DataFrame({'ID': [1, 1, 2, 2], 'TIME': [0., 2., 0., 2.], 'AMT': [20., 0, 20., 0], 'DV': [0., 5., 0., 6.]})
     base = create_basic_pk_model('iv')
@@ -261,6 +262,22 @@ def worker_init():
     for pid in POOL_IDS:
         desc[pid] = mdesc(pid)
     G["desc"] = desc
+
+
+def _sweep_dead_scratch(base):
+    """Pool workers are terminated, not exited: remove the C16 scratch of workers that are gone."""
+    for d in base.glob("pharmpy-verif-*"):
+        try:
+            pid = int(d.name.rsplit("-", 1)[1])
+            os.kill(pid, 0)
+        except (ValueError, PermissionError):
+            continue
+        except ProcessLookupError:
+            shutil.rmtree(d / "c16", ignore_errors=True)
+            try:
+                d.rmdir()
+            except OSError:
+                pass
 
 
 def di_label(di):
